@@ -112,9 +112,14 @@ func (s *st) index(t *world.Tok) int {
 }
 
 func (s *st) killGen(g, gen int) {
-	for _, o := range s.l.Toks {
+	for i, o := range s.l.Toks {
 		if o.Grant == g && o.Gen == gen && o.TE {
 			o.Live = false
+		}
+		if o.Grant == g && !o.TE && o.Live {
+			// an access token handed out by the authorization endpoint (hybrid) shares the grant's
+			// request id: whether a rotation also takes it down is not determined by the statement
+			s.unsure[i] = true
 		}
 	}
 }
